@@ -74,6 +74,7 @@ type exec struct {
 	schedLog []int
 	assertSites map[string]int
 	pathNotes []string
+	pathViolated bool
 	preempt  int // remaining pre-emptions on this path
 	preemptBound int
 	samples  []map[string]uint64
@@ -394,6 +395,7 @@ func (ex *exec) recordViolation(kind, msg, where string, haveModel bool) {
 		}
 		v.Tape = ex.model()
 	}
+	ex.pathViolated = true
 	v.Sched = append([]int{}, ex.schedLog...)
 	// de-duplicate by (kind,msg,known)
 	for _, o := range ex.viol {
@@ -494,6 +496,7 @@ func (ex *exec) explore(run func() runResult) {
 		ex.schedLog = ex.schedLog[:0]
 		ex.pathNotes = ex.pathNotes[:0]
 		ex.preempt = ex.preemptBound
+		ex.pathViolated = false
 		ex.stats.Paths++
 		res := run()
 		rollback()
@@ -503,7 +506,7 @@ func (ex *exec) explore(run func() runResult) {
 		switch res.kind {
 		case "ok", "done":
 			ex.stats.Completed++
-			if len(ex.samples) < 3 && ex.concrete == nil && len(ex.vars) > 0 {
+			if len(ex.samples) < 3 && ex.concrete == nil && len(ex.vars) > 0 && !ex.pathViolated {
 				ex.syncSolverTo(ex.pos)
 				if ex.solver.Check() == Sat {
 					ex.samples = append(ex.samples, ex.model())
